@@ -429,6 +429,21 @@ func c21Corruption(thorough bool) *explore.Scenario {
 		w, _ := zstd.NewWriter(nil, zstd.WithEncoderLevel(zstd.SpeedFastest), zstd.WithEncoderCRC(true))
 		return w.EncodeAll(in, nil)
 	}})
+	base = append(base, encoder{"zlib/stored/from-the-end", algZlib, base[3].enc})
+	// a hand-assembled zstd frame: one Raw_Block carrying the message verbatim, plus the content checksum
+	// (taken from the encoder's own output for the same content). Every byte of the block can be altered
+	// without touching the frame structure or the declared length: only the checksum notices.
+	base = append(base, encoder{"zstd/one-raw-block+crc", algZstd, func(in []byte) []byte {
+		w, _ := zstd.NewWriter(nil, zstd.WithEncoderLevel(zstd.SpeedFastest), zstd.WithEncoderCRC(true))
+		ref := w.EncodeAll(in, nil)
+		sum := ref[len(ref)-4:]
+		n := len(in)
+		out := []byte{0x28, 0xb5, 0x2f, 0xfd, 0xa4, byte(n), byte(n >> 8), byte(n >> 16), byte(n >> 24)}
+		bh := 1 | n<<3
+		out = append(out, byte(bh), byte(bh>>8), byte(bh>>16))
+		out = append(out, in...)
+		return append(out, sum...)
+	}})
 	return &explore.Scenario{
 		Name: "every-byte-corruption-and-truncation", Watchdog: 60 * time.Second, HangSig: "C21|hang",
 		Run: func(x *explore.X) (r explore.Result) {
@@ -436,9 +451,20 @@ func c21Corruption(thorough bool) *explore.Scenario {
 			mode := x.Choose("mode", 2) // 0 xor 0xff at pos, 1 truncate at pos
 			pos := x.Choose("pos", 900)
 			applied := false
-			cs := c21Case{certName: "small", enc: e, advert: []tls.CertCompressionAlgo{tls.CertCompressionAlgo(e.alg)}, declared: func(n int) int { return n }, expect: "error-or-identical",
+			certName := "small"
+			fromEnd := false
+			if strings.Contains(e.name, "one-raw-block") || strings.Contains(e.name, "from-the-end") {
+				// the 3-certificate chain, positions counted back from the end of the block: the last
+				// certificate is not needed for verification, so an altered copy of it still parses —
+				// nothing but the frame checksum stands between the alteration and PeerCertificates
+				certName, fromEnd = "chain3", true
+			}
+			cs := c21Case{certName: certName, enc: e, advert: []tls.CertCompressionAlgo{tls.CertCompressionAlgo(e.alg)}, declared: func(n int) int { return n }, expect: "error-or-identical",
 				mutate: func(c []byte) []byte {
-					if pos >= len(c) {
+					if fromEnd {
+						pos = len(c) - 5 - pos
+					}
+					if pos >= len(c) || pos < 0 {
 						return c
 					}
 					applied = true
@@ -537,7 +563,7 @@ func c21Scenarios(thorough bool) []*explore.Scenario {
 func init() {
 	register(&Prop{ID: "C21", Level: "exploration", Variant: "A", Scenarios: c21Scenarios,
 		Run: func(c *explore.Check, thorough bool) {
-			c.Rule = "the server's Certificate message is replaced (verif hook, before it enters the server transcript) by a CompressedCertificate: every encoder structure of a finite menu (zlib 4 levels, brotli 3 qualities x 2 windows, zstd 3 levels x 2 windows + EncodeAll, each x flush {never, every 7 B, every 512 B}) x certificate message size {1 cert, 3-cert chain, 60 KiB, 250 KiB} x advertised list {only that algorithm, two, all three} (and, for the small certificate, with a CertificateRequest preceding it) must be recovered exactly; declared length {-1,-100,0,+1,+100,2^24-1}, unadvertised algorithm, algorithm replaced in the extension object after the first build, and extension-removed-after-build must be refused (bad_certificate); every byte XOR 0xff and every truncation of the compressed stream of the small certificate (5 encodings incl. zlib stored blocks and zstd raw blocks with a frame checksum, where only the stream's own checksum notices) must be refused or decode to the identical certificates; parrots that advertise compression x each algorithm. distinct = case"
+			c.Rule = "the server's Certificate message is replaced (verif hook, before it enters the server transcript) by a CompressedCertificate: every encoder structure of a finite menu (zlib 4 levels, brotli 3 qualities x 2 windows, zstd 3 levels x 2 windows + EncodeAll, each x flush {never, every 7 B, every 512 B}) x certificate message size {1 cert, 3-cert chain, 60 KiB, 250 KiB} x advertised list {only that algorithm, two, all three} (and, for the small certificate, with a CertificateRequest preceding it) must be recovered exactly; declared length {-1,-100,0,+1,+100,2^24-1}, unadvertised algorithm, algorithm replaced in the extension object after the first build, and extension-removed-after-build must be refused (bad_certificate); every byte XOR 0xff and every truncation of the compressed stream of the small certificate (6 encodings incl. zlib stored blocks, a zstd frame from the encoder with a checksum and a hand-assembled zstd frame of one Raw_Block with a checksum, where only the stream's own checksum notices) must be refused or decode to the identical certificates; parrots that advertise compression x each algorithm. distinct = case"
 			c.Assumptions = []string{"encoders: compress/zlib, andybalholm/brotli, klauspost/compress/zstd from the module cache", "the hook position keeps client and server transcripts in agreement (both hash the CompressedCertificate message)"}
 			runAll(c, c21Scenarios(thorough), 0)
 			c.Gate(c.Total.Counters["recovered_exactly"] > 50, "non-vacuity: %d exact recoveries", c.Total.Counters["recovered_exactly"])
